@@ -116,7 +116,9 @@ Data(w, sn) ==
        /\ marker' = [marker EXCEPT ![w] = r[5]]
   /\ AbsData(w, sn, sn, sn)
   /\ UNCHANGED <<rhb, sac, asm, lastRead, latestIdx, dsc>>
-  /\ Log([a |-> "Data", w |-> w, sn |-> sn])
+  \* whether the datagram carries an INFO_TS (no: the sample has no source timestamp, whatever earlier datagrams said) and
+  \* how long the submessage header is (octetsToInlineQos = 16 + hx) does not matter to the protocol: drawn for the replay
+  /\ Log([a |-> "Data", w |-> w, sn |-> sn, nots |-> (RandomElement(1..5) = 1), hx |-> RandomElement({0, 0, 4, 8})])
 
 \* DATAFRAG carrying fragments f .. f+fc-1
 DataFrag(w, sn, f, fc) ==
@@ -229,7 +231,18 @@ Hostile(c) ==
   /\ Log([a |-> "Hostile", w |-> 3, cls |-> c])
 
 (* ------------------------------------------------------------------ *)
+(* ---- DPEV_ACKNACK_TIMER: MessageReceiver::send_preemptive_acknacks ---- *)
+\* A pre-emptive ACKNACK (base 1, empty set, not final) goes to every matched writer whose proxy says "nothing received
+\* yet" (RtpsWriterProxy::no_changes_received: ack_base = 0 and no changes).  A proxy made for a discovered writer starts
+\* with ack_base 1, so for the writers of this model the tick sends nothing - which is what keeps the ACKNACK stream
+\* truthful (C03): a base-1 ACKNACK after the base has moved on would take acknowledgments back.
+PreTick ==
+  /\ LET S == {w \in Writers : matched[w] /\ ab[w] = 0 /\ chg[w] = {}} IN S = {}
+  /\ UNCHANGED <<absVars, implVars>>
+  /\ Log([a |-> "PreTick"])
+
 Next ==
+  \/ PreTick
   \/ \E w \in Writers : Match(w) \/ Unmatch(w) \/ ReAnnounce(w)
   \/ \E w \in Writers, sn \in SNs : Data(w, sn)
   \/ \E w \in Writers, sn \in FragSNs, f \in 1..NFrags, fc \in 1..NFrags : DataFrag(w, sn, f, fc)
